@@ -3,7 +3,6 @@
 // the function-map decoder lifted from decode_hermes.
 use super::*;
 use crate::types::verif_h::{any_token, mk_map, vec_of};
-use crate::vlq::verif_h::{ref_parse, ST_OK};
 use std::mem::forget;
 
 fn any_scope() -> HermesScopeOffset {
@@ -154,81 +153,3 @@ fn c14_bytecode() {
     forget(dm);
 }
 
-// ---------------------------------------------------------------------------
-// Lifted body of `for mapping in line_mapping.split(',')` of decode_hermes.
-#[derive(Clone, Copy)]
-struct FmState {
-    column: u32,
-    name_index: u32,
-    line: u32,
-}
-
-#[allow(unused_assignments, unused_mut, unreachable_code, clippy::never_loop)]
-fn fm_step(mapping: &str, st: &mut FmState, mappings: &mut Vec<HermesScopeOffset>) -> Option<()> {
-    let mut column = st.column;
-    let mut name_index = st.name_index;
-    let mut line = st.line;
-    let mut nums: Vec<i64> = Vec::with_capacity(16);
-    for _once in 0..1 {
-        /*@LIFT hermes_mapping_body@*/
-    }
-    st.column = column;
-    st.name_index = name_index;
-    st.line = line;
-    forget(nums);
-    Some(())
-}
-
-fn c14_fm_body<const N: usize>() {
-    let t: [u8; N] = kani::any();
-    let mut i = 0;
-    while i < N {
-        kani::assume(t[i] < 0x80 && t[i] != b',' && t[i] != b';');
-        i += 1;
-    }
-    let st0 = FmState { column: kani::any(), name_index: kani::any(), line: kani::any() };
-    let mut st = st0;
-    let mut out: Vec<HermesScopeOffset> = Vec::with_capacity(4);
-    let r = ref_parse(&t);
-    let res = fm_step(unsafe { std::str::from_utf8_unchecked(&t) }, &mut st, &mut out);
-    if r.status != ST_OK {
-        assert!(res.is_none(), "C14/unparsable-mapping-disables-this-function-map");
-        assert!(out.len() == 0, "C14/unparsable-mapping-pushes-nothing");
-    } else if r.n <= 3 && r.exact[0] && r.exact[1] && r.exact[2] {
-        let v0 = r.vals[0];
-        let v1 = if r.n >= 2 { r.vals[1] } else { 0 };
-        let v2 = if r.n >= 3 { r.vals[2] } else { 0 };
-        let c = st0.column as i64 + v0;
-        let ni = st0.name_index as i64 + v1;
-        let l = st0.line as i64 + v2;
-        let lim = 1i64 << 32;
-        if c >= 0 && c < lim && ni >= 0 && ni < lim && l >= 0 && l < lim {
-            assert!(res.is_some(), "C14/well-formed-mapping-accepted");
-            assert!(out.len() == 1, "C14/one-entry-per-mapping");
-            let e = &out[0];
-            assert!(e.column as i64 == c && st.column as i64 == c, "C14/column-is-first-field-delta");
-            assert!(e.name_index as i64 == ni && st.name_index as i64 == ni, "C14/name-index-is-second-field-delta-or-unchanged");
-            assert!(e.line as i64 == l && st.line as i64 == l, "C14/line-is-third-field-delta-or-unchanged");
-            kani::cover!(r.n == 1, "only the column field");
-            kani::cover!(r.n == 3 && v2 > 0, "three fields, line advances");
-            kani::cover!(r.n == 2 && v1 < 0, "negative name-index delta");
-        }
-    }
-    forget(out);
-}
-
-macro_rules! c14_fm {
-    ($name:ident, $n:literal, $u:literal) => {
-        #[kani::proof]
-        #[kani::unwind($u)]
-        #[kani::stub(std::vec::Vec::push, crate::vstubs::vec_push)]
-        fn $name() {
-            c14_fm_body::<$n>()
-        }
-    };
-}
-c14_fm!(c14_fm_len1, 1, 4);
-c14_fm!(c14_fm_len2, 2, 5);
-c14_fm!(c14_fm_len3, 3, 6);
-c14_fm!(c14_fm_len5, 5, 8);
-c14_fm!(c14_fm_len9, 9, 12);
